@@ -298,7 +298,7 @@ func (s *MemoryBackend) read(ctx context.Context, store string, filter storage.R
 	defer s.mutexTuples.RUnlock()
 
 	var matches []*storage.TupleRecord
-	if filter.Object == "" && filter.Relation == "" && filter.User == "" {
+	if filter.Object == "" && filter.Relation == "" && filter.User == "" && len(filter.Conditions) == 0 {
 		matches = make([]*storage.TupleRecord, len(s.tuples[store]))
 		copy(matches, s.tuples[store])
 	} else {
@@ -524,6 +524,10 @@ func (s *MemoryBackend) ReadUsersetTuples(
 			Object:   filter.Object,
 			Relation: filter.Relation,
 		}) && tupleUtils.GetUserTypeFromUser(t.User) == tupleUtils.UserSet {
+			if len(filter.Conditions) > 0 && !slices.Contains(filter.Conditions, t.ConditionName) {
+				continue
+			}
+
 			if len(filter.AllowedUserTypeRestrictions) == 0 { // 1.0 model.
 				matches = append(matches, t)
 				continue
@@ -535,12 +539,8 @@ func (s *MemoryBackend) ReadUsersetTuples(
 			for _, allowedType := range filter.AllowedUserTypeRestrictions {
 				if allowedType.GetType() == userType && allowedType.GetRelation() == userRelation {
 					matches = append(matches, t)
-					continue
+					break
 				}
-			}
-
-			if len(filter.Conditions) > 0 && !slices.Contains(filter.Conditions, t.ConditionName) {
-				continue
 			}
 		}
 	}
